@@ -9,7 +9,8 @@ LEVEL = ("Control-skeleton level only: for each structural instruction the condi
          "body not run for an empty iterable; next: body iff the iterable advances, last instruction once at exhaustion; "
          "never marks the subgraph incomplete), the scoping pairings around children (fold start/end, iterable set/remove, "
          "next before/after, new prolog/epilog on every path) and the joinable! macro's table. The semantic equivalence with "
-         "a reference evaluator is NOT decided.")
+         "a reference evaluator is NOT decided."
+         " Added: a call ending without a result marks the subgraph incomplete; host results only for own requests; the fold iterator is restored on the error path of next; every variable-resolving arm of the scalar fold is joinable; set_value rewrites in place iff same depth.")
 
 
 def exe(F, ty):
